@@ -610,7 +610,7 @@ def run(tier: str, seed: int) -> dict:
             # ---- files modified later: re-embedded at the same path in one patch, touched (attributes) in a later one ----------
             upd_fam = [(lb, by_label[lb]) for lb in QUICK_SMALL]
             for drv in drivers:
-                for h in (("BUBAR", "UBABGR", "BUABUR") if drv != "h5" else ("UAR",)):
+                for h in (("BUBAR", "UBABGR", "BUABUR", "BBBBBBBBBBUBR") if drv != "h5" else ("UAR",)):  # (the last: re-embedded in the 11th container, reopened by name)
                     hist(drv, upd_fam, h, md=None)
                     reached["update_hist"] = reached.get("update_hist", 0) + 1
             # ---- all histories up to length L over the alphabet for a few representative byte strings --
@@ -675,7 +675,7 @@ def run(tier: str, seed: int) -> dict:
              "as neighbours, (byte string) for the harvester and (byte string, algorithm) for util.hashsums",
         bound=f"{reached['bytes']} byte strings (lengths 0..{max(len(b) for _, b in fam_all)}); drivers {','.join(drivers)}; canonical histories "
               f"{ {k: v for k, v in CANONICAL.items() if k in drivers} } on all byte strings (containers of <= {BATCH} files): {reached['canonical_batches']} containers; "
-              f"all histories of length <= {L}{' (mf: <= 1)' if thorough else ''} over {{C,M,R}} (h5) / {{B,C,M,R,G}} (IH5) on {len(QUICK_SMALL) + 1} representative byte strings: {reached['short_hist']} containers; {reached.get('update_hist', 0)} update histories (U = delete + re-embed other content at the same path, A = attribute writes on every embedded node; BUBAR, UBABGR, BUABUR on IH5, UAR on h5)"
+              f"all histories of length <= {L}{' (mf: <= 1)' if thorough else ''} over {{C,M,R}} (h5) / {{B,C,M,R,G}} (IH5) on {len(QUICK_SMALL) + 1} representative byte strings: {reached['short_hist']} containers; {reached.get('update_hist', 0)} update histories (U = delete + re-embed other content at the same path, A = attribute writes on every embedded node; BUBAR, UBABGR, BUABUR and — more than ten containers, reopened by name — BBBBBBBBBBUBR on IH5, UAR on h5)"
               + (f"; all histories of length <= 2 on all byte strings (h5; ih5: length 2 on the 40 base-family strings): {reached['allbytes_hist']} histories; single-file containers: {reached['single']}; "
                  f"random histories of length 4..7: {reached['random_hist']}" if thorough else "")
               + f"; {reached['reads']} (byte string, step) read-backs; reserved value: {len(ROUTES)} routes x base/patch container; {len(neighbours(thorough)) - 1} neighbour values (1-byte: all 255; 2-byte with 0x7f: {"all 511" if thorough else "spread of 27"})",
